@@ -37,6 +37,20 @@ def locate(op: dict) -> dict:
             "method": NS.sanitize_method_name(op["operationId"])}
 
 
+def locate_all(op: dict) -> list[dict]:
+    """One location per DISTINCT tag client the operation is filed under (an operation with several tags is emitted into each of their
+    modules, and each rendering is a separate piece of generated code)."""
+    NS = impl_names()
+    out, seen = [], set()
+    for tag in (op.get("tags") or ["default"]):
+        mod = NS.sanitize_module_name(tag)
+        if mod in seen:
+            continue
+        seen.add(mod)
+        out.append({"module": mod, "cls": NS.sanitize_class_name(tag) + "Client", "method": NS.sanitize_method_name(op["operationId"])})
+    return out
+
+
 def primitive_str(v) -> str:
     """httpx's primitive_value_to_str."""
     if v is True:
